@@ -30,6 +30,50 @@ static void runO8(uint8_t x, size_t L, const std::vector<size_t>& ps)
 	printf("%u %llu\n", unsigned(r.b->mData[7]), ull(r.b->GetMaxProbe(L)));
 }
 
+// table level: a real HashSet with open-addressing buckets and a scripted hash (key -> hash code table)
+struct TblHash { const std::map<uint64_t, uint64_t>* t; size_t operator()(uint64_t k) const { auto it = t->find(k); return it == t->end() ? size_t(k) : size_t(it->second); } };
+static const std::map<uint64_t, uint64_t>* gTab = nullptr;
+// fast-hash traits (isFastNothrowHashable stays true => HashBucketOpen8 really selects BucketOpen8) with a scripted hash
+struct FastTraits8 : public momo::HashTraits<uint64_t, momo::HashBucketOpen8>
+{
+	size_t GetHashCode(const uint64_t& k) const { auto it = gTab->find(k); return it == gTab->end() ? size_t(k) : size_t(it->second); }
+};
+struct SlowTraits2 : public momo::HashTraitsStd<uint64_t, TblHash, std::equal_to<uint64_t>, momo::HashBucketOpen2N2<3>>
+{
+	SlowTraits2() : momo::HashTraitsStd<uint64_t, TblHash, std::equal_to<uint64_t>, momo::HashBucketOpen2N2<3>>(size_t(1), TblHash{ gTab }) {}
+};
+template<class HT, size_t expectMax> static void runTbl(size_t n, const std::vector<std::pair<uint64_t, uint64_t>>& kh)
+{
+	typedef momo::HashSet<uint64_t, HT> HS;
+	std::map<uint64_t, uint64_t> tab; for (auto& p : kh) tab[p.first] = p.second;
+	gTab = &tab;
+	static_assert(HS::Bucket::maxCount == expectMax, "unexpected bucket type selected");
+	HS hs{ HT() };
+	// choose a reservation that yields exactly 2^n buckets (no growth during the inserts)
+	size_t want = size_t(1) << n; bool ok = false;
+	for (size_t r = 1; r <= want * 8 && !ok; ++r) { HS probe{ HT() }; probe.Reserve(r); if (probe.GetBucketCount() == want) { hs.Reserve(r); ok = true; } if (probe.GetBucketCount() > want) break; }
+	if (!ok || hs.GetBucketCount() != want || kh.size() > hs.GetCapacity()) { puts("skip"); return; }
+	for (auto& p : kh) hs.Insert(p.first);
+	if (hs.GetBucketCount() != want || hs.mBuckets->GetNextBuckets() != nullptr) { puts("skip"); return; }
+	std::string out; size_t i = 0;
+	auto& params = hs.mBuckets->GetBucketParams();
+	for (auto& b : *hs.mBuckets)
+	{
+		std::vector<uint64_t> items; for (auto& it : b.GetBounds(params)) items.push_back(it);
+		std::sort(items.begin(), items.end());
+		size_t bound = b.GetMaxProbe(n);
+		if (!items.empty() || bound != 0)
+		{
+			out += std::to_string(i) + ":[";
+			for (size_t j = 0; j < items.size(); ++j) out += (j ? "," : "") + std::to_string(items[j]);
+			out += "]:" + std::to_string(bound) + ";";
+		}
+		++i;
+	}
+	bool all = true; for (auto& p : kh) all = all && hs.ContainsKey(p.first);
+	printf("%s found=%s full=false\n", out.c_str(), all ? "true" : "false");
+}
+
 int main()
 {
 	std::string line;
@@ -58,6 +102,12 @@ int main()
 			std::string kind; ull i, bc, p; is >> kind >> i >> bc >> p;
 			size_t r = (kind == "o2") ? O2<3>::GetNextBucketIndex(i, 0, bc, p) : O8::GetNextBucketIndex(i, 0, bc, p);
 			printf("%llu\n", ull(r));
+		}
+		else if (cmd == "tblm")
+		{
+			std::string kind; ull n, capIgnored; is >> kind >> n >> capIgnored; std::vector<std::pair<uint64_t, uint64_t>> kh; std::string tok;
+			while (is >> tok) { auto c = tok.find(':'); kh.push_back({ std::stoull(tok.substr(0, c)), std::stoull(tok.substr(c + 1)) }); }
+			if (kind == "o2") runTbl<SlowTraits2, 3>(n, kh); else runTbl<FastTraits8, 7>(n, kh);
 		}
 		else if (cmd == "cov")
 		{	// number of distinct buckets visited by the real probe sequence within 2^n probes
